@@ -557,7 +557,8 @@ class ExtSpec:
     pure: no event, no raise"""
 
     def __init__(self, returns=None, raises=('Exception',), effect=None, event=True, pure=False,
-                 effect_on_raise=False, user_code=False, blocking=False, pre=None):
+                 effect_on_raise=False, user_code=False, blocking=False, pre=None, on_raise=None):
+        self.on_raise = on_raise      # fn(engine, st, recv, args, kwargs, exc): assumptions of the raising exit
         self.returns = returns
         self.raises = () if pure else tuple(raises)
         self.effect = effect
